@@ -110,8 +110,49 @@ def invariant_decorator_table(run, model, rule="C17.own-lists"):
                 run.check(bad is None, rule, construct, "lists created iff absent; invariant appended by its check_on; same class returned", bad or "", fi.loc(), None, construct.split("[", 1)[1])
 
 
+def install_on_class_only(run, model, rule="C17.install-on-class"):
+    """add_invariant_checks replaces members *on the class it decorates* (``setattr(cls, name, wrapped)``); it never
+    stores into a member object itself: the member may be inherited -- the very function, property or other
+    descriptor object of a base class -- and a store into it changes the base and all its other descendants."""
+    fi = model.func("_checkers.add_invariant_checks")
+    flow = get_flow(model, fi)
+    run.saw(flow)
+    summ = Summaries(model)
+    cls_p = ("param", fi.params[0])
+    n_sites, bad = 0, None
+    for n in flow.cfg.nodes:
+        stores = []
+        for call, c, a in calls_in(n):
+            if isinstance(call.func, ast.Name) and call.func.id in ("setattr", "delattr") and len(call.args) >= 2:
+                stores.append((call.args[0], src_of(call)))
+        if n.kind == "stmt" and isinstance(n.ast, (ast.Assign, ast.AnnAssign, ast.AugAssign)):
+            for tg in (n.ast.targets if isinstance(n.ast, ast.Assign) else [n.ast.target]):
+                for sub in ([tg] if not isinstance(tg, (ast.Tuple, ast.List)) else tg.elts):
+                    if isinstance(sub, (ast.Attribute, ast.Subscript)):
+                        stores.append((sub.value, src_of(sub)))
+        if n.kind == "stmt" and isinstance(n.ast, ast.Delete):
+            for tg in n.ast.targets:
+                if isinstance(tg, (ast.Attribute, ast.Subscript)):
+                    stores.append((tg.value, src_of(tg)))
+        for obj, text in stores:
+            n_sites += 1
+            ot = strip_sites(flow.term(obj, n))
+            alts = ot[1] if ot[0] == "phi" else (ot,)
+            for a in alts:
+                if a == cls_p or meta.ownership(model, a, summ) == "fresh":
+                    continue
+                bad = bad or (n, "`%s` stores into %s, not into the class being decorated: a member looked up on the class can be the very object a base class (and its other descendants) uses" % (text, show(a, 60)))
+    run.check(bad is None, rule, fi.qual, "all %d stores go to the class being decorated (or to objects created here)" % n_sites, bad[1] if bad else "", fi.loc(bad[0]) if bad else fi.loc(), None, first_line(bad[0].stmt) if bad else None)
+    if n_sites < 3:
+        raise AnalysisError("%s: only %d stores found (constructor, methods, properties expected)" % (fi.qual, n_sites))
+
+
 def run(run, model):
     run.do(meta.ownership_rule, model, "C17.mutation-sites", ("_metaclass",))
+    run.do(install_on_class_only, model)
+    from . import c14
+    # a decorator applied to an object either extends the checker found on it or wraps it in a fresh one: no third way
+    run.do(c14.single_checker, model, "C17.decorate-paths")
     run.do(decorator_sites, model)
     for dunder, what in (("__preconditions__", "precondition groups"), ("__postconditions__", "postconditions"), ("__postcondition_snapshots__", "snapshots")):
         run.do(meta.provenance_rule, model, "C17.fresh-merge", dunder, what)
